@@ -18,9 +18,12 @@ AdjK(K, n, m)    == IF n = m THEN 0 ELSE Cardinality({k \in K : n \in KN(k) /\ m
 Adj(S, n, m)     == AdjK(Keys(S), n, m)
 AdjD(S, d, n, m) == AdjK(OfOrder(S, d), n, m)
 
-\* order-d degree and Laplacian  L_d = d * D_d - A_d
-DegD(S, d, n)    == Cardinality({k \in OfOrder(S, d) : n \in KN(k)})
-LapD(S, d, n, m) == IF n = m THEN d * DegD(S, d, n) ELSE 0 - AdjD(S, d, n, m)
+\* order-d degree and Laplacian  L_d = d * D_d - A_d ; the forms over a hyperedge set K let a validator
+\* evaluate OfOrder(S, d) once for a whole matrix
+DegK(K, n)       == Cardinality({k \in K : n \in KN(k)})
+LapK(K, d, n, m) == IF n = m THEN d * DegK(K, n) ELSE 0 - AdjK(K, n, m)
+DegD(S, d, n)    == DegK(OfOrder(S, d), n)
+LapD(S, d, n, m) == LapK(OfOrder(S, d), d, n, m)
 
 \* dual (hyperedge x hyperedge) adjacency: 1 exactly when the two hyperedges share a node
 Dual(k, l) == IF KN(k) \cap KN(l) # {} THEN 1 ELSE 0
